@@ -248,6 +248,25 @@ def _blame_mode(tree, binds, off, np_scalars=False):
     return None
 
 
+def _nan_inside(tree, binds):
+    import math
+
+    def has_nan(c):
+        if c[0] == "R":
+            return math.isnan(c[1])
+        if c[0] == "L":
+            return any(has_nan(x) for x in c[1])
+        return c[0] == "X"          # complex number
+    for node in E.postorder(tree):
+        if node[0] in ("var", "lit"):
+            continue
+        for backend in (None, "torch"):
+            s, _ = _eval(backend, node, binds, True)
+            if s[0] == "ok" and has_nan(s[1]):
+                return True
+    return False
+
+
 def run_case(ctx, case):
     tree, binds = case["tree"], case["binds"]
     res = {"nontrivial": False, "counters": {}, "violations": []}
@@ -276,6 +295,11 @@ def run_case(ctx, case):
         return res
     if d.startswith("raises-on") and not conly:
         return res            # "whenever both return": outside the statement
+    if _nan_inside(tree, binds):
+        # a not-a-number arose inside the program (fractional power of a negative number, 0%0 ...): what floor, comparison or
+        # integer conversion make of it is not part of "numeric programs mean the same"
+        res["counters"]["divergences_with_nan_intermediate"] = 1
+        return res
     di = _diff(tree, binds, True)[0]          # the two interpreted paths, compiler stubbed off on both
     res["counters"]["divergences_examined"] = 1
     if di and not di.startswith("raises-on"):
